@@ -25,9 +25,12 @@ Items(k) ==
 Scenarios ==
   {s \in [dag : Dags, la : LocalA, ra : RemoteA, tp : TagPairs, items : ItemSets,
           force : BOOLEAN, lease : {"none", "ok", "stale"}, atomic : BOOLEAN] :
-     /\ (s.lease # "none" => (~s.force /\ s.ra # 0 /\ s.items # "+a"))
+     /\ (s.lease # "none" => (~s.force /\ s.items # "+a"))
         \* a lease names the expected current value; combining it with "+"/--force is outside the
         \* domain (git lets the force override a stale lease, go-git refuses: both are safe)
+     /\ (s.lease = "ok" => s.ra # 0)
+        \* lease "stale" with ra = 0: the lease expects a commit but the reference is absent on the
+        \* remote (somebody deleted it meanwhile) -- absent # expected, so the re-creation is denied
      /\ (s.items = "del-a,b" => s.ra # 0)                 \* git refuses to delete a missing ref
      /\ (s.items \in {"a,t", "a,+t"} => s.tp[1] # 0) }    \* a source must exist locally
 
